@@ -40,10 +40,106 @@ def severity_rule(rep):
            "an XMLValidator::emitError overload no longer derives the severity from XMLValid::errorType", "src/xercesc/framework/XMLValidator.cpp")
 
 
+CM_DIR = "src/xercesc/validators/common/"
+
+
+def glushkov_rule(rep):
+    """the node-local part of the position automaton construction, decided by exhaustive evaluation of the statement
+    trees over their finite domains (node type x nullability of the children); position sets are symbolic."""
+    from .. import sxeval
+    rep.rule("C07.c", "content-model algebra (Glushkov / Aho-Sethi-Ullman construction, node-local part): folding the statement "
+             "trees of CMUnaryOp / CMBinaryOp constructors and calcFirstPos / calcLastPos over every node type and every "
+             "nullability of the children gives nullable(x?) = nullable(x*) = true, nullable(x+) = nullable(x), nullable(a|b) = "
+             "nullable(a) or nullable(b), nullable(a,b) = nullable(a) and nullable(b); first(a|b) = first(a) U first(b), "
+             "first(a,b) = first(a) U (first(b) if nullable(a)), last(a,b) = last(b) U (last(a) if nullable(b)); unary nodes pass "
+             "their child's sets through. A different table accepts a different language than the declared content model")
+    tus = [os.path.join(core.REPO, CM_DIR + "CMUnaryOp.cpp"), os.path.join(core.REPO, CM_DIR + "CMBinaryOp.cpp")]
+    g = core.run_xa(tus, st=r"^CM(Unary|Binary)Op::(CMUnaryOp|CMBinaryOp|calcFirstPos|calcLastPos)$", flat=False)
+    enums = g.enums.get("ContentSpecNode::NodeTypes")
+    if not enums:
+        raise AnalysisBroken("enum ContentSpecNode::NodeTypes not found")
+    ev = {e[0].split("::")[-1]: e[1] for e in enums["items"]} if "items" in enums else None
+    if ev is None:
+        raise AnalysisBroken("enum ContentSpecNode::NodeTypes has no enumerator list in the facts")
+
+    def call(x, env):
+        name, recv = x[1], x[2]
+        if name == "CMNode::isNullable" and recv and recv[0] == "f":
+            return env["null:" + recv[1].split("::")[-1]]
+        if name in ("CMNode::getFirstPos", "CMNode::getLastPos") and recv and recv[0] == "f":
+            return frozenset([("First" if "First" in name else "Last", recv[1].split("::")[-1])])
+        if name == "CMNode::getType" and recv == ["this"]:
+            return env["type"]
+        if name == "CMStateSet::operator=" and recv and recv[0] == "p":
+            env[recv[2]] = sxeval.ev(x[3][0], env)
+            return env[recv[2]]
+        if name == "CMStateSet::operator|=" and recv and recv[0] == "p":
+            env[recv[2]] = env.get(recv[2], frozenset()) | sxeval.ev(x[3][0], env)
+            return env[recv[2]]
+        raise sxeval.Unmodelled("call of %s in a content-model node function" % name)
+
+    def body(q):
+        return g.st(q)["body"]
+    n = 0
+
+    def ob(key, ok, what, q):
+        nonlocal n
+        n += 1
+        rep.ob("C07.c", key, ok, what, CM_DIR + q.split("::")[0] + ".cpp")
+    # unary: nullable
+    for tname in ("ZeroOrOne", "ZeroOrMore", "OneOrMore"):
+        for c in (0, 1):
+            env = sxeval.run_env(body("CMUnaryOp::CMUnaryOp"), {"type": ev[tname], "__call__": call, "null:fChild": c})
+            want = c if tname == "OneOrMore" else 1
+            got = None if env is None else env.get("f:CMNode::fIsNullable")
+            ob("unary/nullable/%s/child=%d" % (tname, c), got is not None and bool(got) == bool(want),
+               "nullable = %s" % got if got is not None and bool(got) == bool(want) else
+               "CMUnaryOp(%s) over a %snullable child is marked %s; the regular-expression algebra requires %s" % (
+                   tname, "" if c else "non-", {None: "(constructor throws)"}.get(got, "nullable" if got else "not nullable"),
+                   "nullable" if want else "not nullable"), "CMUnaryOp::CMUnaryOp")
+    for fn, tag in (("calcFirstPos", "First"), ("calcLastPos", "Last")):
+        env = sxeval.run_env(body("CMUnaryOp::" + fn), {"__call__": call})
+        got = env and env.get("toSet")
+        ob("unary/%s" % fn, got == frozenset([(tag, "fChild")]),
+           "passes the child's %s set through" % tag.lower() if got == frozenset([(tag, "fChild")]) else
+           "CMUnaryOp::%s returns %s instead of its child's %s-position set" % (fn, sorted(got) if got else got, tag.lower()), "CMUnaryOp::" + fn)
+    # binary
+    for tname in ("Choice", "Sequence"):
+        for l in (0, 1):
+            for r in (0, 1):
+                base = {"__call__": call, "null:fLeftChild": l, "null:fRightChild": r}
+                env = sxeval.run_env(body("CMBinaryOp::CMBinaryOp"), dict(base, type=ev[tname]))
+                want = (l or r) if tname == "Choice" else (l and r)
+                got = None if env is None else env.get("f:CMNode::fIsNullable")
+                ob("binary/nullable/%s/%d%d" % (tname, l, r), got is not None and bool(got) == bool(want),
+                   "nullable = %s" % got if got is not None and bool(got) == bool(want) else
+                   "CMBinaryOp(%s) with nullable(left)=%d nullable(right)=%d is marked %s; the algebra requires %s" % (
+                       tname, l, r, got, int(bool(want))), "CMBinaryOp::CMBinaryOp")
+                for fn in ("calcFirstPos", "calcLastPos"):
+                    env = sxeval.run_env(body("CMBinaryOp::" + fn), dict(base, type=ev[tname]))
+                    got = None if env is None else env.get("toSet")
+                    gotc = None if got is None else frozenset(b for a, b in got)
+                    if got is not None and any(a != ("First" if fn == "calcFirstPos" else "Last") for a, b in got):
+                        gotc = frozenset("%s-positions of %s" % (a.lower(), b) for a, b in got)
+                    if tname == "Choice":
+                        wantc = frozenset(["fLeftChild", "fRightChild"])
+                    elif fn == "calcFirstPos":
+                        wantc = frozenset(["fLeftChild"] + (["fRightChild"] if l else []))
+                    else:
+                        wantc = frozenset(["fRightChild"] + (["fLeftChild"] if r else []))
+                    ob("binary/%s/%s/%d%d" % (fn, tname, l, r), gotc == wantc,
+                       "%s = union over %s" % (fn, sorted(wantc)) if gotc == wantc else
+                       "CMBinaryOp::%s for %s with nullable(left)=%d nullable(right)=%d takes the positions of %s; the construction "
+                       "requires those of %s" % (fn, tname, l, r, sorted(gotc) if gotc is not None else None, sorted(wantc)),
+                       "CMBinaryOp::" + fn)
+    rep.floor("C07.c", n, 30)
+
+
 def run(rep):
     f = core.library_facts()
     rep.units.update(os.path.relpath(t, core.REPO) for t in f.tus)
     severity_rule(rep)
+    glushkov_rule(rep)
     diag.run(rep, f, "C07")
     dispatch.run(rep, f, "C07")
     rep.undecided += ["that the automaton built from a content model accepts exactly the declared language (DFA construction, nullability, "
